@@ -254,6 +254,20 @@ def task_keys():
             d = col.lia(f'K2_every_recognised_key_reaches_its_destination/{s}', [], z3.BoolVal(not lost))
             if lost:
                 d['reason'] = f'accepted but dropped: {lost}'
+        # K2b: ... and does so on its own: a section given alone (no switch set in any other section) still delivers every key
+        for s in SECTIONS:
+            ra = run_parser({s: dict(full[s])})
+            if len(ra) != 1 or ra[0].outcome != 'return':
+                col.lia(f'K2b_section_alone_is_accepted_and_every_key_reaches_its_destination/{s}', [], z3.BoolVal(False))
+                continue
+            o2 = ra[0].value[0]
+            so2 = o2['simulation_options']
+            d2 = dict(simulation=so2, solver_opts=so2.get('solver_opts', {}), gridding_opts=so2.get('gridding_opts', {}), noise_opts=o2['noise_kwargs'], data=o2['data'],
+                      layered=dict(so2.get('layered_opts', {}), **so2.get('layered_opts', {}).get('ellipse', {})), files=o2['files'])
+            lost = [k for k in full[s] if k not in d2[s] and not (s == 'files' and k == 'path')]
+            d = col.lia(f'K2b_section_alone_is_accepted_and_every_key_reaches_its_destination/{s}', [], z3.BoolVal(not lost))
+            if lost:
+                d['reason'] = f'dropped when the section stands alone: {lost}'
         # K5: emitted names are accepted by the API
         api = api_names()
         # names are handed over by cli.run.simulation, which may rename a key (gopts[new] = gopts.pop(old))
